@@ -133,8 +133,8 @@ def mismatch_kind(trace, idx, verdict=""):
         return toks[3]
     for j in range(idx - 1, -1, -1):
         t = trace[j].split()
-        if len(t) > 3 and t[0] == toks[0] and t[1] == toks[1] and t[2] == toks[2] and t[3] != "state":
-            return t[3]
+        if len(t) > 3 and t[0] == toks[0] and t[1] == toks[1] and t[2] == toks[2] and t[3] not in ("state", "post.enq"):
+            return t[3]           # (`post.enq` is logged by the sender's task, it is not a turn of this actor)
     return "state"
 
 
@@ -261,7 +261,7 @@ class Check:
                 self.disagree.append(dict(mode="pure", stream=name, ops=[l], impl=[a], model=[b], first_diff=0))
         if len(self.samples) < 6 and lines:
             j = rng.below(len(lines))
-            self.samples.append({"stream": name, "op": lines[j], "impl": impl[j] if j < len(impl) else None})
+            self.samples.append({"stream": name, "op": lines[j][:240], "impl": (impl[j][:240] if j < len(impl) else None)})
         self.streams_run.append({"stream": "pure/" + name, "cases": len(lines), "disagreements": nd})
 
     def tracker_relevant(self, line, a, b):
@@ -312,7 +312,7 @@ class Check:
                     self.unattributed += 1
         if len(self.samples) < 6 and cases:
             c = cases[-1]
-            self.samples.append({"stream": "seq/" + profile, "ops": c[:12], "n_ops": len(c)})
+            self.samples.append({"stream": "seq/" + profile, "ops": [o[:240] for o in c[:12]], "n_ops": len(c)})
         self.streams_run.append({"stream": "seq/" + profile + tag, "cases": len(cases), "disagreements": nd})
 
     def conc_stream(self, profile, n_cases, rng):
@@ -343,7 +343,9 @@ class Check:
                     continue          # only the first deviating turn of a case is a root cause
                 diverged.add(case_no)
                 kind = mismatch_kind(trace, idx, v)
-                if kind in kinds or (kind == "end" and "post" in kinds):
+                # an event the validator cannot interpret means the log format and the driver have drifted
+                # apart: that is a broken tie for every property, never something to skip silently
+                if "unparsed" in v or kind in kinds or (kind == "end" and "post" in kinds):
                     nd += 1
                     self.disagree.append(dict(mode="trace", stream="conc/" + profile, ops=[tl], impl=[tl], model=[v], first_diff=0))
                 else:
@@ -399,7 +401,7 @@ class Check:
             self.oracle_fail.append(("abort:conc", "the harness process died while running conc/%s" % profile,
                                      dict(mode="conc", stream=profile, ops=lines[:50], impl=[], model=[])))
         if len(self.samples) < 6 and cases:
-            self.samples.append({"stream": "conc/" + profile, "ops": cases[-1][:14], "n_ops": len(cases[-1]), "trace_events": len(trace)})
+            self.samples.append({"stream": "conc/" + profile, "ops": [o[:240] for o in cases[-1][:14]], "n_ops": len(cases[-1]), "trace_events": len(trace)})
         self.streams_run.append({"stream": "conc/" + profile, "cases": len(cases), "trace_events": len(trace), "disagreements": nd})
 
     def push_stream(self, rng):
@@ -444,7 +446,7 @@ class Check:
             if p.returncode != 0:
                 self.oracle_fail.append(("abort:push", "push harness died: " + p.stderr[-300:], dict(mode="push", stream="push", ops=lines, impl=answers, model=[])))
         if len(self.samples) < 6:
-            self.samples.append({"stream": "push", "ops": scen[0][0][:12], "messages": len(scen[0][1]["msgs"])})
+            self.samples.append({"stream": "push", "ops": [o[:240] for o in scen[0][0][:12]], "messages": len(scen[0][1]["msgs"])})
         self.streams_run.append({"stream": "push", "cases": len(scen), "disagreements": nd})
 
     def root_cause(self, case):
